@@ -29,7 +29,11 @@ ATOK = "atok-c01"
 FAN_TARGETS = ["http://127.0.0.1:1/a", "http://127.0.0.1:1/b", "http://127.0.0.1:1/c"]
 
 
-def hookaidofile(base, extra=""):
+# retention as an operator would tighten it: a DLQ of at most two messages, pruned every second (age rules at their defaults)
+RETENTION = 'queue_retention {\n  prune_interval 1s\n}\ndlq_retention {\n  max_depth 2\n}\n'
+
+
+def hookaidofile(base, extra=RETENTION):
     t = "\n".join('  deliver "%s" {\n    retry exponential max 3 base 1h cap 1h jitter 0\n    timeout 1s\n  }' % u for u in FAN_TARGETS)
     return extra + ('ingress {\n  listen "127.0.0.1:%d"\n}\npull_api {\n  listen "127.0.0.1:%d"\n  auth token "raw:%s"\n}\n'
             'admin_api {\n  listen "127.0.0.1:%d"\n  auth token "raw:%s"\n}\n'
@@ -155,6 +159,9 @@ def http_req(port, method, path, body, headers, timeout=3.0, stream=False):
 def do_step(base, st, deq_results):
     """returns (status or None when the connection died, parsed json or None)"""
     try:
+        if st["op"] == "sleep":
+            time.sleep(st["seconds"])
+            return 200, None
         if st["op"] == "ingress":
             s, d = http_req(base, "POST", "/hooks/" + st["route"], body_for(st["marker"]),
                             {"Content-Type": "application/octet-stream", "X-Marker": st["marker"], "Cookie": "secret=1"}, stream=chunked(st["marker"]))
@@ -495,6 +502,8 @@ def judge(workload, out):
         else:
             allowed.add(want)
         allowed |= alt.get(mk, set())
+        if want == "dead" and sum(1 for v in state.values() if v == "dead") > 2:
+            allowed.add("absent")      # dlq_retention max_depth 2: the oldest dead messages beyond the cap are removed by the prune
         if "leased" in allowed:
             allowed.add("queued")      # a lease that expired before the listing is back in the queue: same promise
         if obs not in allowed:
@@ -629,6 +638,13 @@ def main(ctx, replay):
     workloads.append([{"op": "ingress", "route": "pull", "marker": "c1"}, {"op": "ingress", "route": "pull", "marker": "B2"},
                       {"op": "ingress", "route": "pull", "marker": "t3"}, {"op": "dequeue", "batch": 3}, {"op": "ingress", "route": "pull", "marker": "B4"},
                       {"op": "ack", "ref": [0, 0]}, {"op": "ingress", "route": "pull", "marker": "c5"}])
+    # a fixed workload: the DLQ grows over its depth cap while an older acknowledged message is still queued; after the prune interval
+    # the trim must take dead messages only
+    workloads.append([{"op": "ingress", "route": "pull", "marker": "keep1"}, {"op": "ingress", "route": "pull", "marker": "dd1"},
+                      {"op": "ingress", "route": "pull", "marker": "dd2"}, {"op": "ingress", "route": "pull", "marker": "dd3"},
+                      {"op": "dequeue", "batch": 3}, {"op": "nack", "ref": [0, 0]}, {"op": "dequeue", "batch": 3},
+                      {"op": "dead", "ref": [0, 1]}, {"op": "dead", "ref": [0, 2]}, {"op": "dead", "ref": [1, 1]},
+                      {"op": "sleep", "seconds": 1.3}, {"op": "ingress", "route": "pull", "marker": "keep2"}, {"op": "dequeue", "batch": 1}])
     port0 = 12000 + (os.getpid() % 18) * 1000       # below the ephemeral port range
     evaluations = 0
     nontrivial = set()
@@ -692,6 +708,8 @@ def main(ctx, replay):
             for mk, stt in mstate.items():
                 o = obs.get(mk, "absent")
                 ok = (o == stt) or (stt == "leased" and o == "queued")
+                if not ok and stt == "dead" and o == "absent" and sum(1 for v in mstate.values() if v == "dead") > 2:
+                    ok = True          # dlq_retention max_depth 2 (the model run has no retention): the oldest dead messages beyond the cap are pruned
                 if not ok and inflight is not None:
                     ist = inflight[0]["op"]
                     ok = (ist == "dequeue" and stt == "queued" and o == "leased") or \
